@@ -280,7 +280,16 @@ class Signals:
         function will simply do nothing.
         """
         handlers = setdefaultattr(obj, self._signal_attr, {}).get(name, [])
-        handlers[:] = [h for h in handlers if h[0] is not key]
+        # Not a rebuilt list: the garbage collector may run in the middle of a list comprehension, collect the weak
+        # argument of another handler and re-enter this method for that handler; the rebuilt list then lost a handler
+        # that is still connected.  tuple() and list.remove() (the keys compare by identity) cannot be interrupted.
+        for h in tuple(handlers):
+            if h[0] is key:
+                try:
+                    handlers.remove(h)
+                except ValueError:
+                    pass
+                break
 
     def emit(self, obj, name: Hashable, *args) -> bool:
         """
